@@ -29,8 +29,9 @@ POOLS = {
 
 # pumped pools: (list of hub degrees n, depth of the exploration from each pumped state)
 PUMPED = {
-    "quick": dict(ns=list(range(0, 13)), depth=2),
-    "thorough": dict(ns=list(range(0, 13)) + [15, 16, 17, 31, 32, 33], depth=3),
+    # full focus alphabet to `depth`, narrow ("mini") alphabet to `mini_depth`
+    "quick": dict(ns=list(range(0, 13)), depth=2, mini_depth=4),
+    "thorough": dict(ns=list(range(0, 13)) + [15, 16, 17, 31, 32, 33], depth=3, mini_depth=5),
 }
 
 
@@ -73,7 +74,8 @@ class System:
 def replay(rec, verbose=False):
     if "pumped_star" in rec["pool"]:
         pl = rec["pool"]
-        alpha = Pumped(pl["pumped_star"], pl["extra_links"], pl["cls"], pl["maxar"], pl["none_ends"])
+        alpha = Pumped(pl["pumped_star"], pl["extra_links"], pl["cls"], pl["maxar"], pl["none_ends"],
+                       pl.get("mini", False))
         w = alpha.initial()
         if verbose:
             print(f"  start: hub v0 with {alpha.n} links to v1..v{alpha.n}; late = v{alpha.n + 1}, elsewhere = v{alpha.n + 2}")
@@ -119,9 +121,10 @@ def run(tier, seed, log):
         samples += [{"pool": spec, "history": h} for h in res.sample_histories[-3:]]
     pump = PUMPED[tier]
     pstates = ptrans = 0
-    for n in pump["ns"]:
-        alpha = Pumped(n)
-        res = engine_h.explore(System(alpha), seed=seed, max_depth=pump["depth"])
+    for n, mini, depth in ([(n, False, pump["depth"]) for n in pump["ns"]] +
+                           [(n, True, pump["mini_depth"]) for n in pump["ns"]]):
+        alpha = Pumped(n, mini=mini)
+        res = engine_h.explore(System(alpha), seed=seed, max_depth=depth)
         for fp, (cnt, rec) in res.viols.items():
             rec = dict(rec)
             rec["pool"] = alpha.describe()
@@ -134,7 +137,8 @@ def run(tier, seed, log):
         tot["nontrivial"] += res.nontrivial
     log(f"[{PROP}] pumped stars n={pump['ns']} depth<={pump['depth']}: states={pstates} transitions={ptrans}")
     pools_ev.append({"pool": "pumped stars (hub with n links; every history of <= depth focused ops from there)",
-                     "hub_degrees": pump["ns"], "depth": pump["depth"], "states": pstates,
+                     "hub_degrees": pump["ns"], "depth": pump["depth"], "narrow_alphabet_depth": pump["mini_depth"],
+                     "states": pstates,
                      "transitions": ptrans, "fixpoint": False})
     rep.coverage = {
         "states": tot["states"],
